@@ -169,6 +169,59 @@ pub fn limit_programs(_thorough: bool) -> Vec<Program> {
     v
 }
 
+/// C13 with scheduling points after every update of the usage counter (hook `mem_points`): each thread
+/// works on a key of its own (pairwise distinct hash buckets), so that a thread can be parked between
+/// two counter updates of ONE call while the others reserve and release. The limit admits the resident
+/// record of `a` plus one more small record.
+pub fn limit_point_programs(thorough: bool) -> Vec<Program> {
+    let t = Arc::new(limit_tables());
+    let overhead = std::mem::size_of::<feoxdb::core::record::Record>();
+    let mut v = Vec::new();
+    let mut cfg = Cfg::memory();
+    cfg.mem_points = true;
+    // a = 300 bytes resident; room for that and ONE more small record (or an 8-byte counter): never for a
+    // 600-byte `a`, never for a second 300-byte record, never for `b` and `c` together
+    assert!(overhead + 2 + 8 < 300);
+    cfg.max_memory = Some(overhead + 1 + 300 + (overhead + 1 + 1) + 8);
+    let on_a: Vec<Vec<Op>> = vec![
+        vec![Op::Cas { k: 0, expect: 1, new: 2, ts: 0, ttl: 0 }], // 300 -> 600 bytes: refused
+        vec![ins(0, 2)],                                           // the same growth through insert: refused
+        vec![Op::Cas { k: 0, expect: 1, new: 0, ts: 0, ttl: 0 }], // shrinks: admitted
+        vec![ins(0, 0)],                                           // shrinks: admitted
+        vec![Op::Delete { k: 0, ts: 0 }],
+        vec![Op::Cas { k: 0, expect: 1, new: 2, ts: 0, ttl: 0 }, Op::Cas { k: 0, expect: 1, new: 0, ts: 0, ttl: 0 }],
+    ];
+    let on_b: Vec<Vec<Op>> = vec![vec![ins(1, 0)], vec![ins(1, 1)], vec![Op::Ifa { k: 1, v: 0 }], vec![ins(1, 0), Op::Delete { k: 1, ts: 0 }]];
+    let on_c: Vec<Vec<Op>> = vec![vec![ins(2, 0)], vec![Op::Incr { k: 2, delta: 1, ts: 0, ttl: 0 }]];
+    let setup = vec![ins(0, 1)];
+    for a in &on_a {
+        for b in &on_b {
+            v.push(Program {
+                name: format!("limitpt2:{}|{}", d(&t, a), d(&t, b)),
+                cfg,
+                tables: t.clone(),
+                setup: setup.clone(),
+                threads: vec![a.clone(), b.clone()],
+                observe: vec![0, 1, 2],
+            });
+            for c in &on_c {
+                if !thorough && (a.len() + b.len() > 2) {
+                    continue;
+                }
+                v.push(Program {
+                    name: format!("limitpt3:{}|{}|{}", d(&t, a), d(&t, b), d(&t, c)),
+                    cfg,
+                    tables: t.clone(),
+                    setup: setup.clone(),
+                    threads: vec![a.clone(), b.clone(), c.clone()],
+                    observe: vec![0, 1, 2],
+                });
+            }
+        }
+    }
+    v
+}
+
 fn d(t: &Tables, ops: &[Op]) -> String {
     ops.iter().map(|o| t.describe(o)).collect::<Vec<_>>().join(";")
 }
